@@ -209,12 +209,24 @@ def run(ctx):
         tainted = set()
         changed = True
         guarded = lambda r: r.startswith('f:') and model.strip_targs(r).startswith('f:' + MC + '::')
+        # a container declared by value owns its elements: initialising it from a range of the shared list makes a copy
+        OWNING = ('std::list<', 'std::vector<', 'std::deque<', 'std::set<', 'std::__cxx11::list<')
+        copies = {}
+        for i in f.all_nodes():
+            n = f.N(i)
+            if n['k'] == 'DeclStmt':
+                for d in n['decls']:
+                    ty = (f.types[d['t']] if d.get('t') is not None else '') or ''
+                    if d.get('init') is not None and not d.get('isref') and ty.startswith(OWNING) and not ty.endswith('iterator'):
+                        copies[d['ref']] = d['init']
         while changed:
             changed = False
             for i in f.all_nodes():
                 n = f.N(i)
                 if n['k'] == 'DeclStmt':
                     for d in n['decls']:
+                        if d['ref'] in copies:
+                            continue
                         if d.get('init') is not None and d['ref'] not in tainted:
                             refs = f.subtree_refs(d['init'])
                             if any(guarded(r) for r in refs) or refs & tainted:
@@ -225,7 +237,7 @@ def run(ctx):
                 pass
             f.defs_of_var('')
             for ref, defs in f._defs.items():
-                if ref in tainted or not ref.startswith('v:'):
+                if ref in tainted or not ref.startswith('v:') or ref in copies:
                     continue
                 for (_, v) in defs:
                     if v is not None:
@@ -255,6 +267,14 @@ def run(ctx):
             ok = ok or (any(q.short_of(f.callee(j)) == 'begin' for j in f.calls(n['init'])) and any(q.short_of(f.callee(j)) == 'end' for j in f.calls(n['cond']))
                         and any(q.short_of(f.callee(j)) in ('push_back', 'push_front', 'insert') for j in f.calls(n['body']))
                         and not [j for j in f.walk(n['body']) if f.N(j)['k'] in ('BreakStmt', 'ReturnStmt', 'ContinueStmt', 'GotoStmt')])
+        for ref, init in copies.items():
+            cs = [j for j in f.calls(init) if f.N(j)['k'] == 'CXXMemberCallExpr']
+            b = [j for j in cs if q.short_of(f.callee(j)) == 'begin' and (f.subtree_refs(j) & tainted)]
+            e = [j for j in cs if q.short_of(f.callee(j)) == 'end' and (f.subtree_refs(j) & tainted)]
+            whole = f.N(f.strip(init))['k'] == 'CXXConstructExpr' and len(f.N(f.strip(init))['ch']) == 1 and (f.subtree_refs(init) & tainted)   # copy construction
+            used = any(ref in f.subtree_refs(f.N(L)[part]) for i in dn for L in q.enclosing_loops(f, i) for part in ('init', 'cond') if f.N(L).get(part, -1) is not None and f.N(L).get(part, -1) >= 0)
+            if used and ((len(b) == 1 and len(e) == 1 and len(cs) == 2 and f.access_path(f.obj(b[0])) == f.access_path(f.obj(e[0]))) or (whole and not cs)):
+                ok = True
         ctx.check(ok, R5, 'rise[%s]:copies-whole-list' % t, 'the kill list is not a full copy of the trigger list', f.where)
         # lookup uses the trigger argument
         trg = q.param_by_index(f, 0)
